@@ -74,22 +74,29 @@ func c40SelfTest(t *testing.T) {
 			synctest.Wait()
 			w.Apply("A")
 			synctest.Wait()
-			sabotage(w)
-			f := w.Check()
-			w.Close()
-			synctest.Wait()
-			if sig == "" {
-				if f != nil {
-					t.Fatalf("self-test %s: unexpected failure %s: %s", name, f.Signature, f.Message)
-				}
+			w.mu.Lock()
+			broken := w.fail != nil || len(w.pending) == 0
+			w.mu.Unlock()
+			if broken {
+				// the code under test already misbehaves on [A]: that is for the exploration to
+				// report as a violation, not for the self-test to turn into a tool failure
+				w.Check()
+				w.Close()
+				synctest.Wait()
 				return
 			}
-			if f == nil || f.Signature != sig {
-				t.Fatalf("self-test %s: oracle reported %v, want %s", name, f, sig)
+			sabotage(w)
+			w.Check()
+			w.Close()
+			synctest.Wait()
+			w.mu.Lock()
+			got := w.sigs[sig]
+			w.mu.Unlock()
+			if !got {
+				t.Fatalf("self-test %s: oracle did not report %s (reported %v)", name, sig, w.sigs)
 			}
 		})
 	}
-	expect("faithful", "", func(w *c40World) {})
 	expect("lost", "sample-not-delivered", func(w *c40World) {
 		// the endpoint "accepts" the first request but the data never counts as received
 		w.mu.Lock()
@@ -100,10 +107,6 @@ func c40SelfTest(t *testing.T) {
 	})
 	expect("reordered", "out-of-order", func(w *c40World) {
 		w.mu.Lock()
-		p := w.pending[0]
-		if len(p.Data) < 2 {
-			t.Fatalf("self-test: first request carries %d data", len(p.Data))
-		}
 		// find two data of the same series in the history and feed them swapped
 		var a, b *c40Exp
 		for _, e := range w.order {
@@ -212,9 +215,13 @@ func TestVerifC40(t *testing.T) {
 
 	var plans []c40Plan
 	if r.Quick() {
-		plans = []c40Plan{{"v1", "emu", 5, nil}, {"v2+age", "emu", 4, nil}}
+		plans = []c40Plan{{"v1", "emu", 5, nil}, {"v2+age", "emu", 4, nil}, {"v1~lifo", "emu", 4, nil}}
 	} else {
-		plans = []c40Plan{{"v1", "emu", 7, nil}, {"v2", "emu", 6, nil}, {"v1+age", "emu", 6, nil}, {"v2+age", "emu", 6, nil}, {"v1", "wal", 5, nil}}
+		plans = []c40Plan{
+			{"v2+age", "emu", 6, nil}, {"v1", "wal", 4, nil}, {"v2", "emu", 6, nil}, {"v1~lifo", "emu", 5, nil},
+			{"v1+age", "emu", 5, nil}, {"v2+age~lifo", "emu", 5, nil}, {"v2", "wal", 3, nil},
+			{"v1", "emu", 7, nil}, // the big one last: a deadline on an overloaded machine cuts only this plan
+		}
 	}
 	if v := os.Getenv("VERIF_C40_PLAN"); v != "" { // e.g. "v1:emu:4,v2:wal:3"
 		plans = nil
@@ -242,7 +249,9 @@ func TestVerifC40(t *testing.T) {
 		// histories of <= prefixLen events: shard 0
 		if r.Mine(unit) {
 			res := r.BFS(name, func() vx.Sys { return eng.Sys(mk) }, min(prefixLen, p.depth))
-			completed = min(completed, res.DepthCompleted+max(0, p.depth-prefixLen))
+			if r.Expired() || r.TooManyViolations() {
+				completed = min(completed, res.DepthCompleted)
+			}
 		}
 		unit++
 		if p.depth > prefixLen {
@@ -266,7 +275,9 @@ func TestVerifC40(t *testing.T) {
 					}
 					return s
 				}, p.depth-prefixLen)
-				completed = min(completed, prefixLen+res.DepthCompleted)
+				if r.Expired() || r.TooManyViolations() {
+					completed = min(completed, prefixLen+res.DepthCompleted)
+				}
 			}
 		}
 		doneMu.Lock()
